@@ -345,6 +345,33 @@ func run(r *core.Run) {
 		}
 	}
 
+	// 4b. log trace correspondence: real censor + handlers vs the logging model (LogModel.lean), message by message
+	handlerSpecs := [][]string{{}, {"allowall"}, {"denyall"}, {"denyt"}, {"allowt"}, {"denyq", "allowt"}, {"cap", "denyt", "allowall"},
+		{"ign1", "denyall"}, {"ign0", "denyall"}, {"allowq", "denyall"}, {"denyq", "allowq", "allowt", "denyall"}, {"cap"}, {"allowt", "denyt"}}
+	traceStmts := []string{"select a from t where b = 'Zq1x1z' and c = 731337", knownQuery, "select c from u where d = 'Zq1x1z'", "",
+		"select a from t where b = 'Zq1x1z' and", "insert into t (a) values ('Zq1x1z')", "select 1 from dual"}
+	for i := 0; i < r.N(150, 3000); i++ {
+		specs := core.Pick(rd, handlerSpecs)
+		stmt := core.Pick(rd, traceStmts)
+		if rd.Chance(40) {
+			d := core.Pick(rd, []string{"my", "pg"})
+			t := core.Pick(rd, templatesFor(Templates, d))
+			stmt, _, _ = Instantiate(t, d, rd, nil)
+		}
+		d := core.Pick(rd, []string{"my", "pg"})
+		line := TraceLine(d, rd.Chance(60), rd.Chance(30), specs, stmt)
+		r.Begin("trace:"+line, true, "stream:structured", "logtrace")
+		got := r.Do(line)
+		for _, e := range strings.Split(strings.TrimPrefix(strings.TrimPrefix(got, "allowed "), "denied "), ",") {
+			if e == "-" || e == "" {
+				continue
+			}
+			if !strings.HasSuffix(e, ":none") && !strings.HasSuffix(e, ":redacted") {
+				r.Fail("log-payload-not-redacted", fmt.Sprintf("a log entry prints statement text that is not the redacted one (%s): handlers=%v stmt=%q", e, specs, stmt))
+			}
+		}
+	}
+
 	// 5. malformed: statements the parser rejects
 	for i := 0; i < r.N(60, 1500); i++ {
 		d := core.Pick(rd, dialects)
